@@ -389,8 +389,10 @@ class Gen:
         self.exp.body = body_sink
         if self.fmt in ('epytext', 'restructuredtext'):
             f = self.fields_epy_rst()
-            if f and self.r.random() < .12 and not getattr(self.exp, 'verbatim', None):
-                # a docstring that consists of its fields only
+            rest = [ln for ln in f[1:] if ln.strip()]
+            if f and self.r.random() < .12 and not getattr(self.exp, 'verbatim', None) and any(not ln.startswith(' ') for ln in rest):
+                # a docstring that consists of its fields only (standard docstring cleaning removes the indentation common to all lines but
+                # the first: some later line must start at the margin, or the continuation lines would lose theirs)
                 lines, self.exp.body = [], []
                 return '\n'.join(f) + '\n', self.exp
         elif self.fmt == 'google':
